@@ -707,6 +707,11 @@ func (x *Exec) applyContract(st *State, fr *Frame, fc *FuncContract, key string,
 	for _, cl := range fc.Ensures {
 		st.assume(x.evalBool(st, cl, cPost))
 	}
+	if !x.deriving {
+		for _, cl := range fc.Derives {
+			st.assume(x.evalBool(st, cl, cPost))
+		}
+	}
 	if len(fc.Ensures) > 0 {
 		x.addSmoke("call-"+shortKey(key)+"@"+site, before, st)
 	}
@@ -1145,6 +1150,11 @@ func (x *Exec) loopEnter(st *State, fr *Frame, from, to *ssa.BasicBlock, ord int
 	for _, cl := range lc.Invariants {
 		st.assume(x.evalBool(st, cl, c3))
 	}
+	for _, cl := range lc.Uses {
+		if t := x.useLemma(st, cl, c3); t != nil {
+			st.assume(t)
+		}
+	}
 	x.addSmoke(site, before, st)
 	if lc.Decreases != nil {
 		if v, ok := x.evalTerm(st, lc.Decreases.Expr, lc.Decreases.Line, c3); ok {
@@ -1167,9 +1177,16 @@ func (x *Exec) loopBack(st *State, fr *Frame, from, to *ssa.BasicBlock, ord int)
 		site = fkey + "." + site
 	}
 	c := x.invCtx(st, fr, phis, vals, snap)
+	for _, cl := range lc.Uses {
+		if t := x.useLemma(st, cl, c); t != nil {
+			st.assume(t)
+		}
+	}
 	for _, cl := range lc.Invariants {
 		t := x.evalBool(st, cl, c)
 		x.oblige(st, "invariant-preserved", site+":"+lineOf(cl.Line), cl.Src, x.allProps(), t)
+		// cut: a clause that has its own proof duty may serve as a hypothesis for the clauses after it
+		st.assume(t)
 	}
 	if lc.Decreases != nil && snap.variant != nil {
 		if v, ok := x.evalTerm(st, lc.Decreases.Expr, lc.Decreases.Line, c); ok {
@@ -1215,6 +1232,9 @@ func (x *Exec) loopWrites(fn *ssa.Function, header int) (roots []types.Type, all
 					allocs = true
 					if a, ok := i.(*ssa.Alloc); ok {
 						et := a.Type().(*types.Pointer).Elem()
+						if _, priv := privateLocal(a); priv {
+							continue // lives in families of its own, fresh in every iteration: nothing shared is written
+						}
 						if at, ok := et.Underlying().(*types.Array); ok {
 							add(at.Elem())
 						} else {
@@ -1373,22 +1393,6 @@ func (x *Exec) frameDutyRange(st *State, l loc, pos token.Pos, what string) {
 
 // useLemma: instance of a proved lemma at explicit arguments (assumed; the lemma has its own proof obligations).
 func (x *Exec) useLemma(st *State, cl *Clause, c *evalCtx) (res *Term) {
-	call, ok := cl.Expr.(*ast.CallExpr)
-	if !ok {
-		x.fail("use: expected lemma(args) at %s", cl.Line)
-		return nil
-	}
-	name := call.Fun.(*ast.Ident).Name
-	var ax *Axiom
-	for _, a := range x.p.spec.Axioms {
-		if a.Name == name && a.Lemma {
-			ax = a
-		}
-	}
-	if ax == nil || len(ax.Params) != len(call.Args) {
-		x.fail("use: no lemma %s with %d parameters (%s)", name, len(call.Args), cl.Line)
-		return nil
-	}
 	defer func() {
 		if r := recover(); r != nil {
 			if ee, ok := r.(evalErr); ok {
@@ -1400,6 +1404,68 @@ func (x *Exec) useLemma(st *State, cl *Clause, c *evalCtx) (res *Term) {
 		}
 	}()
 	c.where = cl.Line
+	return x.useTerm(st, cl, cl.Expr, c)
+}
+
+// useTerm: a use clause is assumed, so it must be valid by construction. Its grammar is therefore restricted to
+//
+//	U ::= lemma(args) | forall(k, lo, hi, U, patterns...) | U && U | P ==> U
+//
+// i.e. (guarded, quantified) instances of separately proved lemmas; nothing else can be smuggled in.
+func (x *Exec) useTerm(st *State, cl *Clause, e ast.Expr, c *evalCtx) *Term {
+	switch n := e.(type) {
+	case *ast.ParenExpr:
+		return x.useTerm(st, cl, n.X, c)
+	case *ast.BinaryExpr:
+		if n.Op == token.LAND {
+			return And(x.useTerm(st, cl, n.X, c), x.useTerm(st, cl, n.Y, c))
+		}
+	case *ast.CallExpr:
+		id, ok := n.Fun.(*ast.Ident)
+		if !ok {
+			break
+		}
+		switch id.Name {
+		case "implies":
+			if len(n.Args) == 2 {
+				return Implies(c.term(n.Args[0]), x.useTerm(st, cl, n.Args[1], c))
+			}
+		case "forall":
+			if len(n.Args) >= 4 {
+				v, ok := n.Args[0].(*ast.Ident)
+				if !ok {
+					break
+				}
+				lo, hi := c.term(n.Args[1]), c.term(n.Args[2])
+				bv := Sym(fresh(v.Name), SInt)
+				cc := c.with(map[string]Value{v.Name: Sc{bv}})
+				cc.facts = false
+				body := x.useTerm(st, cl, n.Args[3], cc)
+				var pats []*Term
+				for _, pe := range n.Args[4:] {
+					pats = append(pats, scT(cc.rv(cc.eval(pe))))
+				}
+				return Forall([]*Term{bv}, Implies(And(Le(lo, bv), Lt(bv, hi)), body), pats...)
+			}
+		default:
+			return x.lemmaInstance(st, cl, n, c)
+		}
+	}
+	c.errf("use: only lemma(args), forall(k, lo, hi, U, patterns...), U && U and P ==> U are allowed (%s)", cl.Line)
+	return nil
+}
+
+func (x *Exec) lemmaInstance(st *State, cl *Clause, call *ast.CallExpr, c *evalCtx) *Term {
+	name := call.Fun.(*ast.Ident).Name
+	var ax *Axiom
+	for _, a := range x.p.spec.Axioms {
+		if a.Name == name && a.Lemma {
+			ax = a
+		}
+	}
+	if ax == nil || len(ax.Params) != len(call.Args) {
+		c.errf("use: no lemma %s with %d parameters (%s)", name, len(call.Args), cl.Line)
+	}
 	vars := map[string]Value{}
 	guard := tTrue
 	for i, prm := range ax.Params {
